@@ -45,7 +45,8 @@ def _root_string(v):
     if not args:
         return None
     a = args[0]
-    if isinstance(a, dict) and a.get("$") == "strsub":
+    if isinstance(a, dict) and a.get("$") in ("strsub", "istr"):
+        # a str subclass instance without a str() of its own: the parser sees the same text
         a = a.get("v")
     return a if isinstance(a, str) else None
 
